@@ -205,8 +205,12 @@ def judge(s, r):
                          f"(a file of {r.get('file_len')} bytes; {cls})", dict(base, outcome="unbounded_source_ops")))
         return v
     if r["deadlock"]:
-        v.append(("C09", f"{fam}: caller blocked forever ({cls}); blocked threads {r['blocked']}",
+        v.append(("C09", f"{fam}: caller blocked forever in {r.get('last_call')}() ({cls}); blocked threads {r['blocked']}",
                   dict(base, outcome="deadlock")))
+        if r.get("last_call") in ("finish", "drop"):
+            # finishing / dropping must never block (C10): the object, and with it its threads, is never released
+            v.append(("C10", f"{fam}: {r.get('last_call')}() blocks forever ({cls}); blocked threads {r['blocked']}",
+                      dict(base, outcome="teardown_blocked")))
         return v
     if r["leak"]:
         v.append(("C10", f"{fam}: worker thread never terminates after drop ({cls}); blocked {r['blocked']}",
